@@ -290,6 +290,11 @@ func (conn *Tunnel) requestTunnel(data cemi.Message) error {
 				return errors.New("connection server has terminated")
 			}
 
+			// Ignore acknowledgements that were accepted for an earlier connection.
+			if res.Channel != req.Channel {
+				continue
+			}
+
 			// Ignore mismatching sequence numbers.
 			if res.SeqNumber != conn.seqNumber {
 				continue
